@@ -123,6 +123,14 @@ CHECKS["C16"] = dict(ref="5/C16", text="Functional half: Phase.tla states, per r
     "as behaviours of the protocol; the same workloads run under the Go race detector.",
     note="Interleavings are exhaustive in the model for small constants and observed in the code; races are decided by the race detector on the executions that occur.",
     tech="TLA+ relations (Phase.tla) and protocol specification (PhaseConc.tla) model-checked by TLC; recorded results validated by TLC (Trace_Phase); hook logs of the real goroutines validated against the protocol (Trace_PhaseConc); Go race detector as observation")
+
+CHECKS["C11"] = dict(ref="5/C11", text="RunHistory.tla is the history machine of command-line runs: the key of a run is (command, flags, seed when the command draws random numbers, input); "
+    "threads, repetition and GOMAXPROCS are not in the key; documented equivalences (build seqboot + compute distance per replicate = build distboot, for six model / "
+    "rm-gaps settings; reformat cycles through phylip / nexus / clustal = the first fasta file) share a key; a run whose key is known must reproduce the recorded "
+    "output. TLC generates the descriptors (53 representative command lines of the documented commands x seeds x thread counts 1..32 x repetitions), the binary built "
+    "from /repo executes them in fresh directories (GOMAXPROCS varied), and TLC validates the history (digests of stdout and of every file written).",
+    note="Byte equality is observed on the executed runs (SHA-1 of all output), not derived; finite command table. Trusted: TLC, the shell-less runner in lib/cli.py.",
+    tech="TLA+ run-history specification (RunHistory.tla); TLC-generated run descriptors executed with the freshly built CLI; recorded history validated by TLC (Trace_Runs)")
 NA = []
 def main():
     props = [json.loads(l)["id"] for l in open(os.path.join(V, "properties.jsonl"))]
